@@ -210,6 +210,9 @@ class Translator:
                      "Eq": "(%s =? %s)%%Z" % (a, b), "NotEq": "(negb (%s =? %s)%%Z)" % (a, b)}.get(op)
             if not t: raise Refuse("comparison %s" % op)
             return t, "bool"
+        if isinstance(e, ast.BoolOp):
+            op = " || " if isinstance(e.op, ast.Or) else " && "
+            return "(" + op.join(self.truth(v, cx) for v in e.values) + ")", "bool"
         if isinstance(e, ast.Call):
             if e.keywords: raise Refuse("keyword arguments")
             if isinstance(e.func, ast.Name):
@@ -239,6 +242,43 @@ class Translator:
                 return "(%s A self %s)" % (name, " ".join(args)), ret
             raise Refuse("call")
         raise Refuse("expression %s in %s.%s" % (ast.dump(e)[:80], cx.cls, cx.meth))
+
+    def truth(self, e, cx):
+        """C truthiness of an operand of `or` / `and` / `if`"""
+        t, ty = self.expr(e, cx)
+        if ty == "bool": return t
+        if ty == "nat": return "(negb (Nat.eqb %s 0%%nat))" % t
+        if ty == "Z": return "(negb (%s =? 0)%%Z)" % t
+        raise Refuse("truth value of %s" % ty)
+
+    def guard_of(self, cls, meth, callee):
+        """for a void method of the shape `if <cond>: self.<callee>(<its own arguments>)`: the condition as a bool-valued definition,
+        and the argument names passed on"""
+        owner = self.resolve(cls, meth)
+        ret, args, body = self.classes[owner]["methods"][meth]
+        src, locs = normalise(body)
+        tree = ast.parse(src)
+        if ret != "void" or len(tree.body) != 1 or not isinstance(tree.body[0], ast.If) or tree.body[0].orelse: raise Refuse("%s.%s is not a single guarded call" % (owner, meth))
+        node = tree.body[0]
+        if len(node.body) != 1 or not (isinstance(node.body[0], ast.Expr) and isinstance(node.body[0].value, ast.Call)): raise Refuse("%s.%s: guarded statement" % (owner, meth))
+        call = node.body[0].value
+        if not (isinstance(call.func, ast.Attribute) and isinstance(call.func.value, ast.Name) and call.func.value.id == "self" and call.func.attr == callee) or call.keywords:
+            raise Refuse("%s.%s does not call self.%s" % (owner, meth, callee))
+        passed = []
+        for a in call.args:
+            if not isinstance(a, ast.Name): raise Refuse("%s.%s: argument expression" % (owner, meth))
+            passed.append(a.id)
+        cx = Ctx(self, cls, meth); cx.ret = "bool"
+        for a, t in args: cx.types[a] = t
+        cx.types["self"] = "obj:" + cls
+        cond = self.truth(node.test, cx)
+        coqty = {"F": "F", "Z": "Z", "nat": "nat", "listF": "list F"}
+        used = [(a, t) for a, t in args if t in ("F", "Z", "nat")]
+        sig = " ".join("(%s : %s)" % (a, coqty[t]) for a, t in used)
+        name = "%s_%s_%s_guard" % (self.prefix, cls, meth)
+        txt = "(* %s.%s: the condition under which it calls self.%s(%s) *)\nDefinition %s (A : Arith F) (self : %s_obj) %s : bool :=\n  %s.\n" % (
+            owner, meth, callee, ", ".join(passed), name, cls, sig, cond)
+        return name, txt, passed
 
     # ---- statements
     def assigned(self, stmts):
